@@ -372,7 +372,7 @@ func (ps *parser) readFuncName() (string, error) {
 		if t.kind == "eof" || (t.bol && sb.Len() > 0) {
 			return "", ps.errf("bad function name %q", sb.String())
 		}
-		if t.kind == "op" && t.text != "." && t.text != "[" && t.text != "]" && t.text != "*" && t.text != "/" && t.text != "#" && t.text != ":" {
+		if t.kind == "op" && t.text != "." && t.text != "[" && t.text != "]" && t.text != "*" && t.text != "/" && t.text != "#" && t.text != ":" && t.text != "-" {
 			return "", ps.errf("bad stok %q in function name", t.text)
 		}
 		sb.WriteString(t.text)
@@ -771,10 +771,13 @@ func (ps *parser) parseContract() (*Contract, error) {
 		case "invariant", "decreases":
 			retry := false
 			iter := false
+			cbk := false
 			if ps.isID("retry") {
 				retry = true
 			} else if ps.isID("iter") {
 				iter = true
+			} else if ps.isID("cb") {
+				cbk = true
 			} else if !ps.isID("loop") {
 				return nil, ps.errf("expected 'loop', 'retry' or 'iter' after %s", t.text)
 			}
@@ -799,6 +802,9 @@ func (ps *parser) parseContract() (*Contract, error) {
 			}
 			if iter {
 				n += 2000 // invariants of the n-th `range walk.Plan` loop
+			}
+			if cbk {
+				n += 3000 // invariants of the ResultFunc of the n-th sqlitex.Execute
 			}
 			if t.text == "invariant" {
 				c.Invs[n] = append(c.Invs[n], Clause{Label: lab, Expr: e, Line: line})
